@@ -4,9 +4,10 @@
    Strings are lists of code points (N).  Paths are lists of components below a model root
    (the harness' temp dir); the file system is a finite set of existing entries.
    Definitions only; executable (vm_compute).  Not modelled: symlinks, case-insensitive or
-   Windows path semantics, non-ASCII decimal digits in \d / int(). *)
+   Windows path semantics. *)
 From Coq Require Import NArith List Bool.
 From Coq Require DecimalN.
+From SlskGen Require Import NamingGen.
 Import ListNotations.
 Open Scope N_scope.
 
@@ -22,7 +23,8 @@ Fixpoint str_eqb (a b : str) : bool :=
   | _, _ => false
   end.
 
-Definition is_sep (c : N) : bool := orb (N.eqb c SLASH) (N.eqb c BSLASH).
+(* SEPARATORS is GENERATED from constants.PATH_SEPERATOR_PATTERN *)
+Definition is_sep (c : N) : bool := existsb (N.eqb c) SEPARATORS.
 
 (* re.split(r"[\\/]+", path) with the empty parts dropped = split at every separator, drop empties *)
 Fixpoint split_at_seps (cur : str) (s : str) : list str :=
@@ -33,7 +35,8 @@ Fixpoint split_at_seps (cur : str) (s : str) : list str :=
 Definition nonempty (s : str) : bool := match s with [] => false | _ => true end.
 Definition dot : str := [DOT].  Definition dotdot : str := [DOT; DOT].
 (* parts kept by split_remote_path: `if part and part not in ('.', '..')` *)
-Definition keep_part (s : str) : bool := andb (nonempty s) (andb (negb (str_eqb s dot)) (negb (str_eqb s dotdot))).
+(* SPLIT_DROPS is GENERATED from utils.split_remote_path *)
+Definition keep_part (s : str) : bool := andb (nonempty s) (negb (existsb (str_eqb s) SPLIT_DROPS)).
 Definition split_remote_path (s : str) : list str := filter keep_part (split_at_seps [] s).
 
 (* ---------- file system ------------------------------------------------------------------ *)
@@ -115,7 +118,12 @@ Definition splitext (s : str) : str * str :=
   end.
 
 (* ---------- NumberDuplicateStrategy -------------------------------------------------------- *)
-Definition is_digit (c : N) : bool := andb (N.leb 48 c) (N.leb c 57).
+(* \d / int(): every Unicode decimal digit; DIGIT_ZEROS is GENERATED from the interpreter's unicodedata *)
+Definition digit_zero (c : N) : option N :=
+  if N.ltb c 58 then (if N.leb 48 c then find (N.eqb 48) DIGIT_ZEROS else None)      (* fast path for ASCII; 48 is in the table *)
+  else find (fun z => andb (N.leb z c) (N.ltb c (z + 10))) (tl DIGIT_ZEROS).
+Definition is_digit (c : N) : bool := match digit_zero c with Some _ => true | None => false end.
+Definition dval (c : N) : N := match digit_zero c with Some z => c - z | None => 0 end.
 Fixpoint strip_prefix (pre s : str) : option str :=
   match pre, s with
   | [], _ => Some s
@@ -132,9 +140,9 @@ Fixpoint uint_of_digits (d : str) : Decimal.uint :=
   | [] => Decimal.Nil
   | c :: r =>
       let u := uint_of_digits r in
-      match c with
-      | 48 => Decimal.D0 u | 49 => Decimal.D1 u | 50 => Decimal.D2 u | 51 => Decimal.D3 u | 52 => Decimal.D4 u
-      | 53 => Decimal.D5 u | 54 => Decimal.D6 u | 55 => Decimal.D7 u | 56 => Decimal.D8 u | _ => Decimal.D9 u
+      match dval c with
+      | 0 => Decimal.D0 u | 1 => Decimal.D1 u | 2 => Decimal.D2 u | 3 => Decimal.D3 u | 4 => Decimal.D4 u
+      | 5 => Decimal.D5 u | 6 => Decimal.D6 u | 7 => Decimal.D7 u | 8 => Decimal.D8 u | _ => Decimal.D9 u
       end
   end.
 Fixpoint digits_of_uint (u : Decimal.uint) : str :=
@@ -186,19 +194,18 @@ Definition is_alpha (c : N) : bool := orb (andb (N.leb 65 c) (N.leb c 90)) (andb
 Definition starts_atat (s : str) : bool := match s with a :: b :: _ => andb (N.eqb a AT) (N.eqb b AT) | _ => false end.
 Definition is_drive (s : str) : bool := match s with a :: b :: _ => andb (is_alpha a) (N.eqb b COLON) | _ => false end.
 
-(* DefaultNamingStrategy.FALLBACK_FILENAME *)
-Definition UNNAMED : str := [117; 110; 110; 97; 109; 101; 100].
+(* UNNAMED (DefaultNamingStrategy.FALLBACK_FILENAME), default_has_fallback, keepdir_guard_le: GENERATED from naming.py *)
 
 (* None = the strategy raises (no shipped strategy does any more; NumDup would if listdir failed) *)
 Definition apply_strat (fs : fsys) (remote : str) (st : strat) (p : path) (f : str) : option (path * str) :=
   let parts := split_remote_path remote in
   match st with
-  | Default => match rev parts with l :: _ => Some (p, l) | [] => Some (p, UNNAMED) end
+  | Default => match rev parts with l :: _ => Some (p, l) | [] => if default_has_fallback then Some (p, UNNAMED) else None end
   | KeepDir =>
       match rev parts with
       | [_] => Some (p, f)
       | _ :: c :: _ => if orb (starts_atat c) (is_drive c) then Some (p, f) else Some (p ++ [c], f)
-      | [] => Some (p, f)
+      | [] => if keepdir_guard_le then Some (p, f) else None
       end
   | NumDup =>
       if pexists fs (p ++ [f]) then
@@ -218,7 +225,9 @@ Fixpoint chain_from (fs : fsys) (remote : str) (ch : list strat) (p : path) (f :
 Definition chain (fs : fsys) (remote : str) (ch : list strat) (dl : path) : option (path * str) :=
   chain_from fs remote ch dl [].
 
-Definition default_chain : list strat := [Default; NumDup].
+Definition strat_of_code (c : N) : strat := match c with 0 => Default | 1 => KeepDir | _ => NumDup end.
+(* GENERATED from SharesManager.__init__ *)
+Definition default_chain : list strat := map strat_of_code DEFAULT_CHAIN_CODES.
 
 (* ---------- the property's predicates ------------------------------------------------------- *)
 (* lexical normalisation (= realpath without symlinks) *)
@@ -281,9 +290,11 @@ Definition dstep (ch : list strat) (dl : path) (remotes : nat -> str) (s : dstat
       | Some _ => s                                     (* local_path already set *)
       | None => match chain (d_fs s) (remotes k) ch dl with
                 | Some (p, f) =>
-                    let fs2 := create_file (mkdirs (d_fs s) [] (norm p)) p f in
-                    (* OSError from makedirs/open: local_path stays unset *)
-                    if pexists fs2 (p ++ [f]) then mkD fs2 ((k, (p, f)) :: d_paths s) else mkD fs2 (d_paths s)
+                    if prepare_reserves then      (* GENERATED from _prepare_download_path *)
+                      let fs2 := create_file (mkdirs (d_fs s) [] (norm p)) p f in
+                      (* OSError from makedirs/open: local_path stays unset *)
+                      if pexists fs2 (p ++ [f]) then mkD fs2 ((k, (p, f)) :: d_paths s) else mkD fs2 (d_paths s)
+                    else mkD (mkdirs (d_fs s) [] (norm p)) ((k, (p, f)) :: d_paths s)
                 | None => s
                 end
       end
